@@ -160,3 +160,19 @@ def replay_c09(prop, path):
 
 CHECKS["C09"] = checks_wire.run_c09
 REPLAY["C09"] = replay_c09
+
+
+def replay_c20(prop, path):
+    import checks_wire
+    r = json.load(open(path))
+    got, _ = checks_wire.confirm_fn(build_vh(), "TraceGen.tla")(r["case"])
+    if got:
+        print("VIOLATION property=%s replay=%s" % (prop, path))
+        print("  " + json.dumps(got[0])[:600])
+        return 1
+    print("replay: the recorded mismatch does not occur on this tree")
+    return 0
+
+
+CHECKS["C20"] = checks_wire.run_c20
+REPLAY["C20"] = replay_c20
